@@ -1,5 +1,6 @@
 import LokiModel.C31.Enc
 import LokiModel.C31.Model
+import LokiModel.C31.Nest
 open LokiModel.Fir LokiModel.C31 Sexp
 
 def classesOf (p : Program) : Sexp :=
@@ -8,14 +9,43 @@ def classesOf (p : Program) : Sexp :=
         (if KnownUnrollAssoc p then [atom "unroll-associate-body"] else []) ++
         (if KnownUnrollLive p then [atom "unroll-loopvar-live"] else []))
 
-/-- `(unroll prog inputs flag)` → `(result (classes…) prog')`: the known-finding classes the program is in and the program after
-`do_loop_unroll` on every routine (comments dropped); `excluded` instead of the program inside class `unroll-associate-body`,
-where the real result depends on in-place updates of shared `Associate` nodes that the model does not follow -/
+def mainBody (p : Program) : List Stmt :=
+  match findUnit p p.main with
+  | some u => u.body
+  | none => []
+
+/-- apply `f` to the body of the main unit only -/
+def mapMain (f : List Stmt → List Stmt) (p : Program) : Program :=
+  { p with units := p.units.map fun u => if u.name == p.main then { u with body := f u.body } else u }
+
+/-- * `(unroll prog inputs flag)` → `(result (classes…) prog')`: the known-finding classes the program is in and the program after
+  `do_loop_unroll` on every routine (comments dropped); `excluded` instead of the program inside class `unroll-associate-body`,
+  where the real result depends on in-place updates of shared `Associate` nodes that the model does not follow;
+* `(fusion|fission|interchange prog inputs flag)` → `(result () prog')` for the main unit, or `(result () excluded)` outside the
+  simple class the model covers;
+* `(block …)`, `(fusion-o …)`, `(fission-o …)` → `(result () oracle-only)` (direct oracle only). -/
 def step : Sexp → Option Sexp
   | list (atom "unroll" :: prog :: _) => do
       let p ← decProgram prog
       pure (list [atom "result", classesOf p,
         if KnownUnrollAssoc p then atom "excluded" else encProgram (mapUnits dropComments (unrollProgram p))])
+  | list (atom "fusion" :: prog :: _) => do
+      let p ← decProgram prog
+      pure (list [atom "result", list [],
+        if fusionSimple (mainBody p) then encProgram (mapUnits dropComments (mapMain fusionBody p)) else atom "excluded"])
+  | list (atom "fission" :: prog :: _) => do
+      let p ← decProgram prog
+      pure (list [atom "result", list [],
+        if fissionSimple (mainBody p) then encProgram (mapUnits dropComments (mapMain fissionBody p)) else atom "excluded"])
+  | list (atom "interchange" :: prog :: _) => do
+      let p ← decProgram prog
+      pure (list [atom "result", list [], encProgram (mapUnits dropComments (mapMain interchangeBody p))])
+  | list (atom "block" :: _) => some (list [atom "result", list [], atom "oracle-only"])
+  | list (atom "fusion-o" :: _) => some (list [atom "result", list [], atom "oracle-only"])
+  | list (atom "fission-o" :: prog :: _) => do
+      let p ← decProgram prog
+      pure (list [atom "result",
+        list (if KnownFissionPromote (mainBody p) then [atom "fission-promote-two-loopvars"] else []), atom "oracle-only"])
   | _ => none
 
 def main : IO _root_.Unit := driverMain step
